@@ -51,6 +51,10 @@ echo "--- existing suite with patch (must pass)"
    echo "re-running failing packages alone (the suite has a timing-dependent bulk test): $pkgs"
    go test -vet=off -count=2 $pkgs 2>&1 | tail -3; echo "suite-rerun-exit=${PIPESTATUS[0]}"
  fi)
-echo "--- ./check $ID $TIER against the patched tree"
-VERIF_REPO="$W" timeout 5400 /verif/check "$ID" "$TIER" 2>&1 | grep -v "^KNOWN" | grep "^violation\|^VIOLATION\|^SUMMARY\|^INFRA\|^VERIF\|BUILD" | cut -c1-400 | tail -40
+PROP="${PROP:-}"
+if [ -z "$PROP" ]; then
+  case "$ID" in C[0-9][0-9]) PROP="$ID";; *) PROP=$(head -1 "$SRC/notes.md" | grep -o -E 'C[0-9]{2}' | head -1);; esac
+fi
+echo "--- ./check $PROP $TIER against the patched tree"
+VERIF_REPO="$W" timeout 5400 /verif/check "$PROP" "$TIER" 2>&1 | grep -v "^KNOWN" | grep "^violation\|^VIOLATION\|^SUMMARY\|^INFRA\|^VERIF\|BUILD" | cut -c1-400 | tail -40
 echo "check-exit=${PIPESTATUS[0]}"
